@@ -5,15 +5,15 @@
 # Output: one line per change "<id> seed=<s> rc=<rc> wall=<s>" (rc=1 = caught).  Scratch data lives under /tmp/sm-$$ and is removed.
 seed=$1; shift
 ids="$*"
-[ -n "$ids" ] || ids=$(cd /verif/seeded && ls -d C* | sort)
+[ -n "$ids" ] || ids=$(cd ${SM_SRC:-/verif}/seeded && ls -d C* | sort)
 top=/tmp/sm-$$
 mkdir -p $top
-rsync -a --exclude .cache --exclude replays --exclude .git /verif/ $top/verif/
+rsync -a --exclude .cache --exclude replays --exclude .git ${SM_SRC:-/verif}/ $top/verif/
 for id in $ids; do
   prop=$(echo $id | cut -c1-3)
   w=$top/wt-$id
   git -C /repo worktree add -q --detach $w HEAD || continue
-  if ! git -C $w apply /verif/seeded/$id/patch.diff; then echo "$id seed=$seed PATCH-DOES-NOT-APPLY"; git -C /repo worktree remove --force $w; continue; fi
+  if ! git -C $w apply $top/verif/seeded/$id/patch.diff; then echo "$id seed=$seed PATCH-DOES-NOT-APPLY"; git -C /repo worktree remove --force $w; continue; fi
   start=$(date +%s)
   out=$(cd $top/verif && VERIF_REPO=$w VERIF_SEED=$seed ./check $prop --tier quick 2>&1); rc=$?
   end=$(date +%s)
